@@ -59,14 +59,17 @@ Definition key_rows (cols:frame) (by_:list Z) : option (list (list cell)) :=
   end.
 
 (* key column j of the destination: component j of every group *)
+Fixpoint spec_key_cols_from (j:Z) (cols:frame) (keys:list Z) (grp:list (list cell)) : list (Z * field) :=
+  match keys with
+  | [] => []
+  | k :: t =>
+    (key_name k, match lookup k cols with
+                 | Some f => dest_col f (map (fun r => nthd [] r j) grp)
+                 | None => mkField [] true (BDat [])
+                 end) :: spec_key_cols_from (j + 1) cols t grp
+  end.
 Definition spec_key_cols (cols:frame) (by_:list Z) (grp:list (list cell)) : list (Z * field) :=
-  map (fun jk:Z * Z =>
-         let '(j, k) := jk in
-         (key_name k, match lookup k cols with
-                      | Some f => dest_col f (map (fun r => nthd [] r j) grp)
-                      | None => mkField [] true (BDat [])
-                      end))
-      (combine (iota 0 (length by_)) by_).
+  spec_key_cols_from 0 cols by_ grp.
 
 Definition spec_agg_cols (a:agg) (cols:frame) (keyrows:list (list cell)) (targets:list Z) : list (Z * field) :=
   map (fun t => (agg_name a t, match lookup t cols with
